@@ -156,7 +156,7 @@ def conv_bursts(cls, dwf, dwt, klass, tier, part=None):
                     for p in range(ln + 1):
                         add(wb + (p << full), ln, full, ref.WRAP)
     elif klass == "maxlen":
-        add(P, 256 // ratio - 1, full, ref.INCR)
+        add(P, 255 if up else 256 // ratio - 1, full, ref.INCR)       # the longest burst whose translation is still a legal burst
     elif klass == "lenoverflow":
         for ln in (256 // ratio, 255):
             add(P, ln, full, ref.INCR)
@@ -205,6 +205,7 @@ def _conv():
             if up:
                 reg("+unaligned", "unaligned", part="ko")
                 reg("+partial", "partial")
+                reg(",maxlen", "maxlen", t=tier if (dwf, dwt) in ((32, 64), (8, 32)) else "thorough")
             else:
                 reg(",maxlen", "maxlen", t=tier if (dwf, dwt) == (64, 32) else "thorough")
                 reg("+lenoverflow", "lenoverflow")
